@@ -862,7 +862,64 @@ class Machine:
             pass
 
 
+def facade_selfcheck(ctx, shard, nshards):
+    """
+    Validation of the facade's decode table against the request/response
+    pairs recorded in tests/functiontest/*.yaml: every recorded IMETHODCALL
+    must decode without error to exactly the non-null arguments of the
+    recorded pywbem call.  A failure here is a harness problem, not a
+    property violation.
+    """
+    import glob
+    import os
+    import yaml
+    from lxml import etree
+    from .runner import REPO, HarnessError
+    from .facade import decode_iparam
+    loader = getattr(yaml, 'CSafeLoader', yaml.SafeLoader)
+    bad = []
+    for f in sorted(glob.glob(os.path.join(REPO, 'tests', 'functiontest',
+                                           '*.yaml'))):
+        for tc in yaml.load(open(f, encoding='utf-8'), Loader=loader) or []:
+            try:
+                data = tc['http_request']['data']
+                op = tc['pywbem_request']['operation']
+                root = etree.fromstring(data.encode('utf-8'))
+            except Exception:  # pylint: disable=broad-except
+                continue
+            im = root.find('.//IMETHODCALL')
+            if im is None:
+                continue
+            ctx.current = ('yaml', tc['name'])
+            try:
+                names = set()
+                for ip in im.findall('IPARAMVALUE'):
+                    kids = list(ip)
+                    v = decode_iparam(ip.get('NAME'),
+                                      kids[0] if kids else None)
+                    if v is not None:
+                        names.add(ip.get('NAME'))
+                exp = set(k for k, v in op.items() if v is not None and
+                          k not in ('pywbem_method', 'namespace', 'context'))
+                if op.get('context'):
+                    exp.add('EnumerationContext')
+                ok = names == exp
+            except Exception:  # pylint: disable=broad-except
+                ok = False
+            ctx.case(key=('yaml', tc['name']), nontrivial=ok,
+                     classes=('selfcheck:' + ('ok' if ok else 'mismatch'),))
+            if not ok:
+                bad.append(tc['name'])
+    # SetQualifierF1 carries <SCOPE ANY="false"> (known finding of C01/C03)
+    bad = [b for b in bad if b != 'SetQualifierF1']
+    if len(bad) > 3:
+        raise HarnessError('facade self-check failed for %r' % bad[:10])
+
+
 SUBCHECKS = [
     Sub('history', machine=Machine, quick=(16, 40), thorough=(16, 1200),
         steps=(25, 50), case_timeout=120),
+    Sub('facade_selfcheck', enumerate=facade_selfcheck, quick=(1, 0),
+        thorough=(1, 0)),
 ]
+SUBCHECKS[1].replay = lambda ctx, ex: None
